@@ -9,6 +9,15 @@ claimed={
 "C19":dict(engine=E1+" + "+E2, tech=T_E1+"; "+T_E2,
   text="Timers: all call sequences up to length 4 (quick) / 5 (thorough, each also under every schedule with <=1 preemption) over {advance 1, advance 2, Refresh, Stop, ClearTimeout} after SetTimeout/SetInterval, and all singles/pairs of concurrent Stop/Refresh/Clear issued before the due instant, at it and at a later tick, under every interleaving with the timer goroutine up to 2-3 (quick) / 3-5 (thorough) preemptions; oracle = reference timer with co-instant events linearised in any order: callback instants exact, operations return, no callback after the final cancel, no timer goroutine left after 5 more periods.",
   note="Virtual clock (synctest) and scheduler own all nondeterminism of utils/timer.go; Go runtime timer semantics (go1.26.8, synchronous timer channels) are the real ones. Refresh after cancellation is excluded as unspecified."),
+"C01":dict(engine=E1+" + "+E2, tech=T_E1+" with dynamic partial-order reduction; "+T_E2,
+  text="Outbound ordering: (E1) a session on polling / websocket (thorough: polling v3) with a protocol-conformant client actor, one or two application sender goroutines with two sends each, optionally a graceful close, every interleaving with the poll cycle, send goroutines and context watchers up to 1 (thorough 2) preemptions; the client's decoded receive sequence must contain each sender's messages as a prefix of its send sequence, no duplicates, same kind and bytes, and everything when the session stays open. (E2) sequential sweep of batch compositions x transports x revisions x b64 x compression settings x per-packet options, decoded with the independent codec.",
+  note="Upgrade in the middle of the stream is covered by the C08 scenarios, whose oracle includes this one."),
+"C12":dict(engine=E1, tech=T_E1+" with dynamic partial-order reduction",
+  text="Orderly close: Close(false), Close(true), Server.Close relative to a sender with two sends, with a responsive client actor and with a silent client, on polling and websocket, and a discarding close one second after a graceful one; every interleaving up to 1 (thorough 2) preemptions. Oracle: every Send that had returned before Close(false) was called reaches the client before the close; exactly one close event; reason forced close with a responsive client; closed within the close timeout / heartbeat deadline with a silent one; no request left outstanding; once a discarding close has returned and the server is quiescent the session is closed and the table empty.",
+  note="Promptness of a graceful close is only required up to the documented bounds (30s close timeout, heartbeat deadline)."),
+"C18":dict(engine=E1, tech=T_E1+" with dynamic partial-order reduction",
+  text="Flush/drain/callbacks: one or two sender goroutines with callbacks against poll cycles / websocket send goroutines, with and without a close; oracle on the recorded events: flush and drain alternate on session and server, flush carries only packets that had a packetCreate, no packet flushed twice, one packetCreate per accepted Send, each callback at most once, after the flush event of its packet's batch, in send order per sender, not at a later instant than the close. Re-entrancy matrix: every session/server event x {Send, Close(false), Close(true)} called from its listener and from a send callback must return (a thread left waiting for a lock it holds is the witness).",
+  note="Callbacks are not required to run eventually (the statement does not promise it)."),
 "C03":dict(engine=E1, tech=T_E1+" with dynamic partial-order reduction",
   text="Lifecycle: one real session per execution on polling (poll pending / not), polling v3 (thorough) and websocket; action sets = every close cause singly and in pairs (thorough: triples) plus neutral traffic (Send, client message, poll), also with a protocol-conformant client actor that keeps polling and answers pings; all actions started concurrently and every interleaving explored up to 2 preemptions for singles/pairs (1 for triples/actor; thorough 3/2), <=4 (6) context switches off the default schedule, with DPOR; sequential epilogue (Send, POST, poll begun after the close) and run to t=110s virtual. Oracle: ready states non-decreasing at every event and at the end, session handed over open, exactly one close event, its reason the documented reason of an injected cause (combinations included), no event after close except same-instant continuations of actions begun before it, responsive client never closed without a cause.",
   note="Close reasons of cause combinations (overlapping requests, application close during a data request, write to a connection the peer already closed) are accepted as transport error, as upstream Engine.IO reports them. WebTransport sessions are covered under C08/C12."),
